@@ -28,8 +28,8 @@ EFFECT = [
     (re.compile(r"^std::thread::|rayon::current_thread_index|rayon::current_num_threads|rayon::ThreadPool"), "thread-id"),
     (re.compile(r"sync::mpsc|crossbeam"), "channel"),
 ]
-ORDER_PRESERVING = re.compile(r"^rayon::(iter::IntoParallelRefIterator::par_iter|iter::IntoParallelIterator::into_par_iter|prelude::ParallelSlice::par_chunks|"
-                              r"slice::ParallelSlice::par_chunks|iter::ParallelIterator::(filter_map|map|filter|collect|flat_map)|iter::IndexedParallelIterator::(enumerate|zip))$")
+ORDER_PRESERVING = re.compile(r"^rayon::(iter::IntoParallelRefIterator::par_iter|iter::IntoParallelIterator::into_par_iter|prelude::ParallelSlice::par_chunks(_exact)?|"
+                              r"slice::ParallelSlice::par_chunks(_exact)?|iter::ParallelIterator::(filter_map|map|filter|collect|flat_map)|iter::IndexedParallelIterator::(enumerate|zip))$")
 SORTS = re.compile(r"slice::<impl \[T\]>::(sort|sort_by|sort_by_key|sort_unstable|sort_unstable_by|sort_unstable_by_key|sort_by_cached_key)$")
 
 # consumers reviewed as commutative and idempotent per element: accumulator -> (callee that must be the only crate-local call of the loop, reason)
